@@ -161,6 +161,8 @@ def run(ck, facts, tier):
                      "%s:%s" % (rec["file"] if rec else "?", ln), sample=why)
 
     shape_rule(ck, facts)
+    from rules import deps
+    deps.include_panic_guards(ck, facts, tier)
     ck.not_decided += [
         "aborts inside dependencies on inputs outside the documented ranges (dates beyond chrono's range, > 2^63 elements)",
         "allocation failure; stack depth of the recursive FX fill-in and the B-spline recursion",
@@ -194,13 +196,18 @@ def call_path(P, target, limit=6):
 
 
 # ---------------------------------------------------------------- R20.6
-def shape_rule(ck, facts):
-    """Every Ok path of a validating constructor / loader returns a value whose shape invariant is true by construction or by a condition of that path."""
+def shape_rule(ck, facts, accept=None):
+    """Every Ok path of a validating constructor / loader returns a value whose shape invariant is true by construction or by a condition of that path.
+    With `accept` (a rule id, used by C16): additionally, a loader's Ok path demands nothing but the invariant — it accepts every well-shaped object."""
     import cel, paths
-    from cel import Poly, Rec, Sym, Tup, Unsupported, vkey, length_of
+    from cel import Poly, Rec, Sym, Tup, Coll, Seq, Unsupported, vkey, length_of
+    if accept:
+        ra = ck.rule(accept, "a validating loader refuses only shape violations: the conditions on its Ok path are exactly the type's shape invariants (nothing else is "
+                             "demanded), so every object the constructors and mutators can produce loads back; in particular an unsolved spline (c = None) is accepted "
+                             "under the same conditions as a solved one minus |c| = n", floor=5)
     r6 = ck.rule("R20.6", "every Ok path of a validating constructor or loader returns a value whose shape invariant holds by construction or is a condition of that path "
                           "(|vars| = |dual|; dual2 is |vars| x |vars|; currency name 3 bytes; pair currencies distinct; n = |t| - k, |c| = n, t non-decreasing) — and at "
-                          "least one Err path exists for each such condition", floor=7)
+                          "least one Err path exists for each such condition", floor=10)
     D1, D2 = "dual::dual::Dual", "dual::dual::Dual2"
 
     def inv_dual(x, num):
@@ -254,6 +261,10 @@ def shape_rule(ck, facts):
                 if not any((a, not pol) in c for c, _ in errs):
                     ok, why = False, "no Err path rejects the violation of `%s`" % repr(a)[:200]
             ck.check(r6, key, ok, why, where, sample="%d Ok path(s), %d Err path(s); invariants on every Ok path" % (len(oks), len(errs)))
+            if accept and key.endswith("(model)"):
+                extra = sorted({repr(a)[:160] for c, v in oks for a, p in c if (a, p) not in needed})
+                ck.check(ra, key, bool(oks) and not extra, "the loader's Ok path demands more than the shape invariant (a well-shaped object can be refused)" if oks else "no Ok path",
+                         where, detail="; ".join(extra)[:600], sample="Ok-path conditions = invariants")
         except Unsupported as e:
             ck.fail(r6, key, "rule could not be established (%s)" % e, where)
 
@@ -289,3 +300,45 @@ def shape_rule(ck, facts):
     pm = Sym("ctor", "FXPairDataModel", Sym("m0"), Sym("m1"))
     run_case("FXPair::try_from(model)", "<fx::rates::fxpair::FXPair as std::convert::TryFrom<fx::rates::fxpair::FXPairDataModel>>::try_from", [pm],
              lambda x: [Sym("not", vkey(Sym("cmp", "Eq", vkey(x.tag[2]), vkey(x.tag[3]))))] if isinstance(x, Sym) and x.tag[:2] == ("ctor", "FXPair") and len(x.tag) == 4 else [Sym("not-a-pair")])
+
+    # ---- PPSpline loader: n = |t| - k with k >= 1, t non-decreasing with >= 2 knots, and |c| = n when coefficients are present
+    fn = "<splines::spline::PPSpline<T> as std::convert::TryFrom<splines::spline::PPSplineDataModel<T>>>::try_from"
+    r = facts.fn(fn)
+    where = "%s:%d" % (r["file"], r["line"]) if r else None
+    T_ = Sym("field", "t")
+    tel = lambda idx: Poly.atom(("call", "index", (vkey(T_), idx.key())))
+    TS = Coll(Seq(T_, tel))
+    K, N, CV = Poly.atom("k"), Poly.atom("n"), Sym("field", "cvec")
+    LT, q0 = Poly.atom(("len", vkey(T_), None)), Poly.atom("q0")
+    lit = lambda v, pol: next(iter(paths.atoms({(vkey(v), pol)})))
+    inv = {lit(cel.cmp_sym("Lt", LT, Poly.const(2), True), False),
+           (("sym", "forall", vkey(Sym("zip", vkey(T_), vkey(Sym("skip", vkey(T_), Poly.const(1).key())))), vkey(cel.cmp_sym("Le", tel(q0), tel(q0 + Poly.const(1))))), True),
+           lit(cel.cmp_sym("Lt", K, Poly.const(1), True), False),
+           lit(Sym("cmp", "Eq", vkey(Sym("checked", "sub", LT.key(), K.key())), vkey(Sym("ctor", "Some", N))), True)}
+    inv_c = lit(cel.cmp_sym("Eq", Poly.atom(("len", vkey(CV), None)), N), True)
+    n_ok_paths = []
+    for cname, cval, want in (("c=None", Sym("ctor", "None"), inv), ("c=Some", Sym("ctor", "Some", CV), inv | {inv_c})):
+        key = "PPSpline::try_from(model)[%s]" % cname
+        if r is None:
+            ck.fail(r6, key, "function not found: " + fn)
+            continue
+        try:
+            m = Rec("splines::spline::PPSplineDataModel", {"k": K, "t": TS, "c": cval, "n": N})
+            ps = paths.flatten(cel.Ev(facts).apply_fn(fn, [m], 0))
+            oks = [paths.atoms(c) for c, v in ps if isinstance(v, Sym) and v.tag[:2] == ("ctor", "Ok")]
+            errs = [c for c, v in ps if isinstance(v, Sym) and v.tag[:2] == ("ctor", "Err")]
+            missing = sorted({repr(a)[:160] for c in oks for a in want if a not in c})
+            unrej = sorted({repr(a)[:160] for a, pol in want if not any(paths.may_establish(c, (a, not pol)) for c in errs)})
+            n_ok_paths.append(len(oks))
+            ck.check(r6, key, not missing and (not unrej or not oks),
+                     ("an Ok path lacks the invariant(s) " + "; ".join(missing) if missing else "no Err path rejects the violation of " + "; ".join(unrej)),
+                     where, sample="%d Ok / %d Err paths; n = |t| - k, k >= 1, t sorted, |t| >= 2%s" % (len(oks), len(errs), ", |c| = n" if cname == "c=Some" else ""))
+            if accept:
+                extra = sorted({repr(a)[:160] for c in oks for a in c if a not in want})
+                ck.check(ra, key, bool(oks) and not extra, "the loader's Ok path demands more than the shape invariant (a well-shaped spline can be refused)" if oks else
+                         "no Ok path: a spline in this state can never be loaded", where, detail="; ".join(extra)[:600], sample="Ok-path conditions = invariants")
+        except Unsupported as e:
+            ck.fail(r6, key, "rule could not be established (%s)" % e, where)
+            if accept:
+                ck.fail(ra, key, "rule could not be established (%s)" % e, where)
+    ck.check(r6, "PPSpline::try_from(model):reached", any(n_ok_paths), "no Ok path of the spline loader was analysed (rule would hold vacuously)", where, sample="Ok paths per case: %s" % n_ok_paths)
